@@ -2,7 +2,7 @@
    operator tables are as specified; and, for each row that is NOT as specified, a program on which
    the checker and the typing rules disagree.  Every statement is conditional on the state of the
    generated table, so that this file compiles before and after the defects are repaired. *)
-From TV Require Import Base.I32 Base.F32 Model.Ops Model.Expr Model.Typing Spec.TypingRules
+From TV Require Import Base.I32 Base.F32 Model.Ops Model.Expr Model.TypeCheck Spec.TypingRules
   Gen.OpTable Gen.OpClass Gen.TcDispatch Proofs.TypingExpr Proofs.TypingSound Proofs.TypingDynamic.
 Open Scope Z_scope.
 
@@ -10,7 +10,7 @@ Open Scope Z_scope.
 Lemma gen_optypes_ok : optypes_ok gen_optypes = true.
 Proof. vm_compute. reflexivity. Qed.
 
-(* ast::walk_stmt / walk_item are what Model/Typing.check_stmt transcribes *)
+(* ast::walk_stmt / walk_item are what Model/TypeCheck.check_stmt transcribes *)
 Lemma gen_walk_ok : walk_ok gen_tctable = true.
 Proof. vm_compute. reflexivity. Qed.
 
